@@ -212,3 +212,24 @@ static SweepInfo c20_angle_sweep(Ctx& ctx, const Clause& cl)
 static Reg r_c20_angle({ "C20.angle", "C20", "sweep",
   "every integer d in [-360, 360] x {sin_angle, cos_angle, tan_angle} x every argument type able to carry d (int8..int64, uint8..uint64 for d >= 0, float, fixed_t), every run; oracle: sin/cos within 7 ulp + r^9/9! of sin/cos(d degrees); tan within 5 ulp*(1+tan^2) (d = 90 mod 180 skipped); identical results across argument types; non-trivial = |d| beyond an 8-bit type, negative d, d mod 360 in (135,180) u (315,360); distinct by construction",
   c20_angle_check, 0, nullptr, c20_angle_sweep });
+
+// ================================================================ C19: call context and argument type of the table functions
+static void c19_init_check(Ctx& ctx, const Args& a)
+{
+  if (a.size() != 1 || a[0] < 0 || a[0] > 7) { ctx.skip(); return; }
+  ctx.nontriv(); ctx.cls("static-initialiser-call");
+  for (size_t ci = 0; ci < ctx.cuts.size(); ++ci) { int64_t early, now; if (ctx.call(ci, E_init_probe, a[0], early) && ctx.call(ci, E_init_probe_now, a[0], now) && early != now) ctx.fail(ci, strf("table function probe %" PRId64 " returned %" PRId64 " when called from a static initialiser of another translation unit but %" PRId64 " when called later", a[0], early, now)); }
+}
+static SweepInfo c19_init_sweep(Ctx& ctx, const Clause& cl) { SweepInfo si; si.exhaustive = true; si.note = "8 probe calls made from a static initialiser of the wrapper translation unit (linked before fixed_math.cc)"; if (ctx.worker == 0) for (int64_t i = 0; i < 8; ++i) ctx.evaluate(cl, { i }); return si; }
+static Reg r_c19_init({ "C19.staticinit", "C19", "sweep", "the compiled table functions called from a static initialiser of a translation unit linked before fixed_math.cc (cos/sin_angle_aprox, sqrt_aprox, atan_index_aprox, tan_tab) must return what they return later: the tables must be constant-initialised", c19_init_check, 0, nullptr, c19_init_sweep });
+static void c19_types_check(Ctx& ctx, const Args& a)
+{
+  static const int ids[6] = { E_sin_angle_aprox_i8, E_cos_angle_aprox_i8, E_sin_angle_aprox_i16, E_cos_angle_aprox_i16, E_sin_angle_aprox_u8, E_cos_angle_aprox_u16 };
+  static const int tys[6] = { 0, 0, 2, 2, 1, 3 };
+  if (a.size() != 2 || a[0] < 0 || a[0] > 5) { ctx.skip(); return; }
+  i128 d = tval(ITYPES[tys[a[0]]], a[1]); bool iscos = a[0] & 1; long double t = iscos ? cos_deg((int64_t)d) : sin_deg((int64_t)d);
+  ctx.cls(g_sigs[ids[a[0]]].name); if (d < 0 || d > 360) ctx.nontriv();
+  for (size_t ci = 0; ci < ctx.cuts.size(); ++ci) { int64_t v; if (!ctx.call(ci, ids[a[0]], a[1], v)) continue; long double e = fabsl(rv(v) - t) / ULP; if (e > 2.0L + 1e-9L) ctx.fail(ci, strf("%s(%s) = %" PRId64 " is %.3Lf ulp from the true value", g_sigs[ids[a[0]]].name, i128s(d).c_str(), v, e)); }
+}
+static SweepInfo c19_types_sweep(Ctx& ctx, const Clause& cl) { SweepInfo si; si.exhaustive = true; si.note = "every value of the narrow carrier types"; uint64_t idx = 0; for (int f = 0; f < 6; ++f) { int bits = (f < 2 || f == 4) ? 8 : 16; for (int64_t v = 0; v < ((int64_t)1 << bits); ++v) if (mine(ctx, ++idx)) ctx.evaluate(cl, { f, v }); } return si; }
+static Reg r_c19_types({ "C19.angletypes", "C19", "sweep", "sin_angle_aprox / cos_angle_aprox called with int8_t, uint8_t, int16_t, uint16_t arguments (every value of the type): within 2 ulp of sin/cos of that many degrees; non-trivial = negative or > 360", c19_types_check, 0, nullptr, c19_types_sweep });
